@@ -254,8 +254,14 @@ func (s *Scheduler) apply(ft Fault, f *os.File) {
 		}
 	case "rmdir":
 		if s.Dir != "" {
-			os.RemoveAll(s.Dir)
-			desc = "removed " + s.Dir
+			// (a writer running at the same time may put a new file into the directory while it is
+			// being emptied: the removal then fails and the directory stays)
+			err := os.RemoveAll(s.Dir)
+			if _, serr := os.Stat(s.Dir); err == nil && os.IsNotExist(serr) {
+				desc = "removed " + s.Dir
+			} else {
+				desc = fmt.Sprintf("could not remove %s (%v)", s.Dir, err)
+			}
 		}
 	case "truncate":
 		// cut the last byte off the run file: its final record is incomplete, and the read that
